@@ -1,11 +1,1017 @@
-//! C12 — not built yet (see DESIGN.md §5 C12).
+//! C12 — referential integrity holds after every statement; ON DELETE / ON UPDATE actions produce the
+//! specified child changes; statements that would orphan a child row are rejected (DESIGN §5 C12).
+//!
+//! One explicit-state search (`vcore::histmc`, real parser + executor, states merged on the canonical
+//! whole-value fingerprint) per *configuration*: a schema family × declaration form × action pair.
+//! In every transition the harness
+//!   1. recomputes the invariant from table scans (declared foreign keys as the DDL of the prelude
+//!      states them, independent of the catalog's bookkeeping): every non-NULL fk has a parent;
+//!   2. asks the reference model (`model.rs`) what the statement must do on the pre-state and, when
+//!      the engine accepted it, compares all tables with the model's result (action conformance) and
+//!      reports accepted statements the model must reject (orphaning statements).
+//! A statement the engine rejects although the model would apply it is not a violation.
 
-pub fn run(_tier: &str) -> i32 {
-    eprintln!("MACHINERY-ERROR C12 is not built yet");
-    2
+use std::collections::{BTreeMap, HashMap, HashSet};
+use std::sync::Mutex;
+
+use serde_json::{json, Value};
+use vibesql_storage::Database;
+
+use vcore::exec::Out;
+use vcore::histmc::{self, Caps, Node, Spec};
+use vcore::report::Report;
+
+use crate::model::{self, Act, Fk, Op, Pred, Schema, SetExpr, TableDecl};
+use crate::sx;
+
+pub struct Cfg {
+    pub name: String,
+    pub family: &'static str,
+    pub form: &'static str,
+    pub on_delete: String,
+    pub on_update: String,
+    pub prelude: Vec<String>,
+    pub schema: Schema,
+    pub ops: Vec<Op>,
 }
 
-pub fn replay(_case: &serde_json::Value) -> i32 {
-    eprintln!("MACHINERY-ERROR C12 is not built yet");
-    2
+fn act_clause(od: Act, ou: Act) -> String {
+    let mut s = String::new();
+    // RESTRICT has no keyword in this parser: declared as NO ACTION (omitted) and patched in the AST
+    for (kw, a) in [("DELETE", od), ("UPDATE", ou)] {
+        match a {
+            Act::NoAction | Act::Restrict => {}
+            other => s.push_str(&format!(" ON {} {}", kw, other.label())),
+        }
+    }
+    s
+}
+
+fn wrap_restrict(sql: String, od: Act, ou: Act) -> String {
+    let mut w = String::new();
+    if od == Act::Restrict {
+        w.push('d');
+    }
+    if ou == Act::Restrict {
+        w.push('u');
+    }
+    if w.is_empty() {
+        sql
+    } else {
+        format!("#RESTRICT {} :: {}", w, sql)
+    }
+}
+
+fn ins(table: &'static str, rows: &[&[Option<i64>]]) -> Op {
+    Op::Insert { table, cols: None, rows: rows.iter().map(|r| r.to_vec()).collect() }
+}
+fn del(table: &'static str, pred: Pred) -> Op {
+    Op::Delete { table, pred }
+}
+fn upd(table: &'static str, pred: Pred, col: usize, set: SetExpr) -> Op {
+    Op::Update { table, pred, col, set }
+}
+const N: Option<i64> = None;
+fn s(i: i64) -> Option<i64> {
+    Some(i)
+}
+
+/// parent p(id PK, v UNIQUE), child c(id PK, pid DEFAULT 1 → p.id)
+fn pc_cfg(form: &'static str, od: Act, ou: Act, thorough: bool) -> Cfg {
+    let p = "CREATE TABLE p (id INT PRIMARY KEY, v INT UNIQUE)".to_string();
+    // the fk column has a DEFAULT only where SET DEFAULT needs one: an explicit NULL written into a
+    // column with a default is stored as the default by this engine (a matter of C09, not of C12)
+    let with_default = od == Act::SetDefault || ou == Act::SetDefault;
+    let dflt = if with_default { " DEFAULT 1" } else { "" };
+    let c = if form == "table" {
+        format!("CREATE TABLE c (id INT PRIMARY KEY, pid INT{}, FOREIGN KEY (pid) REFERENCES p (id){})", dflt, act_clause(od, ou))
+    } else {
+        format!("CREATE TABLE c (id INT PRIMARY KEY, pid INT{} REFERENCES p (id){})", dflt, act_clause(od, ou))
+    };
+    let schema = Schema {
+        tables: vec![
+            TableDecl { name: "P", cols: vec!["id", "v"], defaults: vec![N, N] },
+            TableDecl { name: "C", cols: vec!["id", "pid"], defaults: vec![N, if with_default { s(1) } else { N }] },
+        ],
+        fks: vec![Fk { child: "C", cols: vec![1], parent: "P", pcols: vec![0], on_delete: od, on_update: ou }],
+    };
+    let mut ops = vec![
+        ins("P", &[&[s(1), s(10)]]),
+        ins("P", &[&[s(2), s(20)]]),
+        ins("P", &[&[s(1), s(10)], &[s(2), s(20)], &[s(3), s(30)]]),
+        ins("C", &[&[s(1), s(1)]]),
+        ins("C", &[&[s(2), s(2)]]),
+        ins("C", &[&[s(4), s(9)]]),
+        ins("C", &[&[s(1), s(1)], &[s(2), s(2)]]),
+        ins("C", &[&[s(5), s(1)], &[s(6), s(9)]]),
+        Op::Insert { table: "C", cols: Some(vec![0]), rows: vec![vec![s(7)]] },
+        del("P", Pred::Eq(0, 1)),
+        del("P", Pred::Eq(0, 2)),
+        del("P", Pred::Ge(0, 2)),
+        del("P", Pred::NoWhere),
+        del("P", Pred::Eq(1, 10)),
+        upd("P", Pred::Eq(0, 1), 0, SetExpr::Const(s(3))),
+        upd("P", Pred::NoWhere, 0, SetExpr::Add(10)),
+        upd("P", Pred::Eq(0, 1), 0, SetExpr::Const(s(1))),
+        upd("P", Pred::Eq(1, 20), 0, SetExpr::Const(s(5))),
+        upd("P", Pred::Eq(0, 1), 1, SetExpr::Const(s(11))),
+        upd("C", Pred::Eq(0, 1), 1, SetExpr::Const(s(2))),
+        upd("C", Pred::Eq(0, 1), 1, SetExpr::Const(s(9))),
+        upd("C", Pred::Eq(0, 2), 1, SetExpr::Const(N)),
+        upd("C", Pred::NoWhere, 1, SetExpr::Add(1)),
+        del("C", Pred::Eq(0, 1)),
+        Op::Truncate { table: "P", cascade: false },
+        Op::Truncate { table: "C", cascade: false },
+    ];
+    if !with_default {
+        ops.push(ins("C", &[&[s(3), N]]));
+    }
+    if thorough {
+        ops.extend([
+            Op::Truncate { table: "P", cascade: true },
+            del("C", Pred::NoWhere),
+            upd("C", Pred::NoWhere, 1, SetExpr::Const(s(2))),
+            upd("P", Pred::All, 0, SetExpr::Add(1)),
+            del("P", Pred::All),
+        ]);
+    }
+    Cfg {
+        name: format!("pc/{}/{}/{}", form, od.label(), ou.label()),
+        family: "pc",
+        form,
+        on_delete: od.label().into(),
+        on_update: ou.label().into(),
+        prelude: vec![p, wrap_restrict(c, od, ou)],
+        schema,
+        ops,
+    }
+}
+
+/// self-referencing e(id PK, boss → e.id); the constraint is added with ALTER TABLE because CREATE
+/// TABLE looks the referenced table up before it exists
+fn self_cfg(od: Act, ou: Act) -> Cfg {
+    let schema = Schema {
+        tables: vec![TableDecl { name: "E", cols: vec!["id", "boss"], defaults: vec![N, N] }],
+        fks: vec![Fk { child: "E", cols: vec![1], parent: "E", pcols: vec![0], on_delete: od, on_update: ou }],
+    };
+    let ops = vec![
+        ins("E", &[&[s(1), N]]),
+        ins("E", &[&[s(2), s(1)]]),
+        ins("E", &[&[s(3), s(2)]]),
+        ins("E", &[&[s(4), N]]),
+        ins("E", &[&[s(5), s(9)]]),
+        ins("E", &[&[s(6), s(6)]]),
+        ins("E", &[&[s(7), N], &[s(8), s(7)]]),
+        ins("E", &[&[s(4), N], &[s(1), N], &[s(3), N]]),
+        upd("E", Pred::Eq(0, 4), 1, SetExpr::Const(s(1))),
+        del("E", Pred::Eq(0, 1)),
+        del("E", Pred::Eq(0, 2)),
+        del("E", Pred::Ge(0, 2)),
+        del("E", Pred::NoWhere),
+        upd("E", Pred::Eq(0, 1), 0, SetExpr::Const(s(9))),
+        upd("E", Pred::NoWhere, 0, SetExpr::Add(10)),
+        upd("E", Pred::Eq(0, 2), 1, SetExpr::Const(s(4))),
+        upd("E", Pred::Eq(0, 4), 1, SetExpr::Const(s(2))),
+        upd("E", Pred::Eq(0, 1), 1, SetExpr::Const(s(2))),
+        upd("E", Pred::Eq(0, 2), 1, SetExpr::Const(s(8))),
+        Op::Truncate { table: "E", cascade: false },
+    ];
+    Cfg {
+        name: format!("self/alter/{}/{}", od.label(), ou.label()),
+        family: "self",
+        form: "alter",
+        on_delete: od.label().into(),
+        on_update: ou.label().into(),
+        prelude: vec![
+            "CREATE TABLE e (id INT PRIMARY KEY, boss INT)".into(),
+            format!("ALTER TABLE e ADD CONSTRAINT fke FOREIGN KEY (boss) REFERENCES e (id){}", act_clause(od, ou)),
+        ],
+        schema,
+        ops,
+    }
+}
+
+/// chain g → c → p: c.pid → p.id (CASCADE/CASCADE), g.cid → c.id with the given delete action
+fn chain_cfg(gd: Act) -> Cfg {
+    let schema = Schema {
+        tables: vec![
+            TableDecl { name: "P", cols: vec!["id"], defaults: vec![N] },
+            TableDecl { name: "C", cols: vec!["id", "pid"], defaults: vec![N, N] },
+            TableDecl { name: "G", cols: vec!["id", "cid"], defaults: vec![N, N] },
+        ],
+        fks: vec![
+            Fk { child: "C", cols: vec![1], parent: "P", pcols: vec![0], on_delete: Act::Cascade, on_update: Act::Cascade },
+            Fk { child: "G", cols: vec![1], parent: "C", pcols: vec![0], on_delete: gd, on_update: Act::NoAction },
+        ],
+    };
+    let ops = vec![
+        ins("P", &[&[s(1)], &[s(2)]]),
+        ins("C", &[&[s(1), s(1)]]),
+        ins("C", &[&[s(2), s(2)]]),
+        ins("C", &[&[s(3), s(1)]]),
+        ins("G", &[&[s(1), s(1)]]),
+        ins("G", &[&[s(2), s(2)]]),
+        ins("G", &[&[s(3), s(3)]]),
+        ins("G", &[&[s(4), s(9)]]),
+        del("P", Pred::Eq(0, 1)),
+        del("P", Pred::Eq(0, 2)),
+        del("P", Pred::NoWhere),
+        del("C", Pred::Eq(0, 1)),
+        del("C", Pred::NoWhere),
+        upd("P", Pred::NoWhere, 0, SetExpr::Add(10)),
+        upd("C", Pred::Eq(0, 1), 0, SetExpr::Const(s(5))),
+        upd("G", Pred::NoWhere, 1, SetExpr::Add(1)),
+    ];
+    Cfg {
+        name: format!("chain/table/g:{}", gd.label()),
+        family: "chain",
+        form: "table",
+        on_delete: format!("CASCADE,{}", gd.label()),
+        on_update: "CASCADE,NO ACTION".into(),
+        prelude: vec![
+            "CREATE TABLE p (id INT PRIMARY KEY)".into(),
+            "CREATE TABLE c (id INT PRIMARY KEY, pid INT, FOREIGN KEY (pid) REFERENCES p (id) ON DELETE CASCADE ON UPDATE CASCADE)".into(),
+            format!("CREATE TABLE g (id INT PRIMARY KEY, cid INT, FOREIGN KEY (cid) REFERENCES c (id){})", act_clause(gd, Act::NoAction)),
+        ],
+        schema,
+        ops,
+    }
+}
+
+/// two children of one parent with different actions; both creation orders (actions are performed
+/// in catalog order)
+fn two_cfg(first_cascade: bool, a: Act) -> Cfg {
+    let c1 = "CREATE TABLE c1 (id INT PRIMARY KEY, pid INT, FOREIGN KEY (pid) REFERENCES p (id) ON DELETE CASCADE ON UPDATE CASCADE)".to_string();
+    let c2 = format!("CREATE TABLE c2 (id INT PRIMARY KEY, pid INT, FOREIGN KEY (pid) REFERENCES p (id){})", act_clause(a, a));
+    let schema = Schema {
+        tables: vec![
+            TableDecl { name: "P", cols: vec!["id"], defaults: vec![N] },
+            TableDecl { name: "C1", cols: vec!["id", "pid"], defaults: vec![N, N] },
+            TableDecl { name: "C2", cols: vec!["id", "pid"], defaults: vec![N, N] },
+        ],
+        fks: vec![
+            Fk { child: "C1", cols: vec![1], parent: "P", pcols: vec![0], on_delete: Act::Cascade, on_update: Act::Cascade },
+            Fk { child: "C2", cols: vec![1], parent: "P", pcols: vec![0], on_delete: a, on_update: a },
+        ],
+    };
+    let ops = vec![
+        ins("P", &[&[s(1)], &[s(2)], &[s(3)]]),
+        ins("P", &[&[s(1)]]),
+        ins("C1", &[&[s(1), s(1)]]),
+        ins("C1", &[&[s(2), s(2)]]),
+        ins("C2", &[&[s(1), s(1)]]),
+        ins("C2", &[&[s(2), s(2)]]),
+        ins("C2", &[&[s(3), s(3)]]),
+        del("P", Pred::Eq(0, 1)),
+        del("P", Pred::Eq(0, 2)),
+        del("P", Pred::NoWhere),
+        del("P", Pred::Ge(0, 1)),
+        upd("P", Pred::NoWhere, 0, SetExpr::Add(10)),
+        upd("P", Pred::Eq(0, 1), 0, SetExpr::Const(s(7))),
+        del("C2", Pred::NoWhere),
+    ];
+    let (x, y) = if first_cascade { (c1, c2) } else { (c2, c1) };
+    Cfg {
+        name: format!("two/table/{}-first/{}", if first_cascade { "cascade" } else { "other" }, a.label()),
+        family: "two",
+        form: "table",
+        on_delete: format!("CASCADE+{}", a.label()),
+        on_update: format!("CASCADE+{}", a.label()),
+        prelude: vec!["CREATE TABLE p (id INT PRIMARY KEY)".into(), x, y],
+        schema,
+        ops,
+    }
+}
+
+/// child references the UNIQUE non-key column p.v
+fn uniq_cfg(od: Act, ou: Act) -> Cfg {
+    let schema = Schema {
+        tables: vec![
+            TableDecl { name: "P", cols: vec!["id", "v"], defaults: vec![N, N] },
+            TableDecl { name: "C", cols: vec!["id", "pv"], defaults: vec![N, N] },
+        ],
+        fks: vec![Fk { child: "C", cols: vec![1], parent: "P", pcols: vec![1], on_delete: od, on_update: ou }],
+    };
+    let ops = vec![
+        ins("P", &[&[s(1), s(10)]]),
+        ins("P", &[&[s(2), s(1)]]),
+        ins("P", &[&[s(10), s(20)]]),
+        ins("C", &[&[s(1), s(10)]]),
+        ins("C", &[&[s(2), s(1)]]),
+        ins("C", &[&[s(3), s(2)]]),
+        ins("C", &[&[s(4), N]]),
+        del("P", Pred::Eq(0, 1)),
+        del("P", Pred::Eq(0, 2)),
+        del("P", Pred::Eq(1, 10)),
+        del("P", Pred::NoWhere),
+        upd("P", Pred::Eq(0, 1), 1, SetExpr::Const(s(11))),
+        upd("P", Pred::Eq(0, 1), 0, SetExpr::Const(s(5))),
+        upd("P", Pred::NoWhere, 1, SetExpr::Add(100)),
+        upd("C", Pred::Eq(0, 1), 1, SetExpr::Const(s(1))),
+    ];
+    Cfg {
+        name: format!("uniq/table/{}/{}", od.label(), ou.label()),
+        family: "uniq",
+        form: "table",
+        on_delete: od.label().into(),
+        on_update: ou.label().into(),
+        prelude: vec![
+            "CREATE TABLE p (id INT PRIMARY KEY, v INT UNIQUE)".into(),
+            wrap_restrict(
+                format!("CREATE TABLE c (id INT PRIMARY KEY, pv INT, FOREIGN KEY (pv) REFERENCES p (v){})", act_clause(od, ou)),
+                od,
+                ou,
+            ),
+        ],
+        schema,
+        ops,
+    }
+}
+
+/// the child's foreign key is its own primary key and is referenced in turn by g
+fn pkfk_cfg(gu: Act) -> Cfg {
+    let schema = Schema {
+        tables: vec![
+            TableDecl { name: "P", cols: vec!["id"], defaults: vec![N] },
+            TableDecl { name: "C", cols: vec!["pid", "w"], defaults: vec![N, N] },
+            TableDecl { name: "G", cols: vec!["id", "cid"], defaults: vec![N, N] },
+        ],
+        fks: vec![
+            Fk { child: "C", cols: vec![0], parent: "P", pcols: vec![0], on_delete: Act::Cascade, on_update: Act::Cascade },
+            Fk { child: "G", cols: vec![1], parent: "C", pcols: vec![0], on_delete: Act::Cascade, on_update: gu },
+        ],
+    };
+    let ops = vec![
+        ins("P", &[&[s(1)], &[s(2)]]),
+        ins("C", &[&[s(1), s(0)]]),
+        ins("C", &[&[s(2), s(0)]]),
+        ins("G", &[&[s(1), s(1)]]),
+        ins("G", &[&[s(2), s(2)]]),
+        ins("G", &[&[s(3), s(9)]]),
+        upd("P", Pred::Eq(0, 1), 0, SetExpr::Const(s(5))),
+        upd("P", Pred::NoWhere, 0, SetExpr::Add(10)),
+        upd("C", Pred::Eq(0, 1), 0, SetExpr::Const(s(2))),
+        del("P", Pred::Eq(0, 1)),
+        del("P", Pred::NoWhere),
+        del("C", Pred::Eq(0, 2)),
+    ];
+    Cfg {
+        name: format!("pkfk/table/g:{}", gu.label()),
+        family: "pkfk",
+        form: "table",
+        on_delete: "CASCADE,CASCADE".into(),
+        on_update: format!("CASCADE,{}", gu.label()),
+        prelude: vec![
+            "CREATE TABLE p (id INT PRIMARY KEY)".into(),
+            "CREATE TABLE c (pid INT PRIMARY KEY, w INT, FOREIGN KEY (pid) REFERENCES p (id) ON DELETE CASCADE ON UPDATE CASCADE)".into(),
+            format!("CREATE TABLE g (id INT PRIMARY KEY, cid INT, FOREIGN KEY (cid) REFERENCES c (pid) ON DELETE CASCADE{})", act_clause(Act::NoAction, gu)),
+        ],
+        schema,
+        ops,
+    }
+}
+
+/// composite key p2(a,b) ← c(x,y); a NULL component switches the check off (MATCH SIMPLE)
+fn comp_cfg(od: Act, ou: Act) -> Cfg {
+    let schema = Schema {
+        tables: vec![
+            TableDecl { name: "P2", cols: vec!["a", "b"], defaults: vec![N, N] },
+            TableDecl { name: "C", cols: vec!["id", "x", "y"], defaults: vec![N, N, N] },
+        ],
+        fks: vec![Fk { child: "C", cols: vec![1, 2], parent: "P2", pcols: vec![0, 1], on_delete: od, on_update: ou }],
+    };
+    let ops = vec![
+        ins("P2", &[&[s(1), s(1)]]),
+        ins("P2", &[&[s(1), s(2)]]),
+        ins("P2", &[&[s(2), s(1)]]),
+        ins("C", &[&[s(1), s(1), s(1)]]),
+        ins("C", &[&[s(2), s(1), s(2)]]),
+        ins("C", &[&[s(3), s(2), s(2)]]),
+        ins("C", &[&[s(4), s(9), N]]),
+        del("P2", Pred::Eq(0, 1)),
+        del("P2", Pred::Eq(1, 1)),
+        del("P2", Pred::NoWhere),
+        upd("P2", Pred::Eq(1, 1), 1, SetExpr::Const(s(3))),
+        upd("P2", Pred::NoWhere, 0, SetExpr::Add(1)),
+        upd("C", Pred::Eq(0, 1), 2, SetExpr::Const(s(2))),
+        upd("C", Pred::Eq(0, 1), 2, SetExpr::Const(s(7))),
+        upd("C", Pred::Eq(0, 1), 1, SetExpr::Const(N)),
+    ];
+    Cfg {
+        name: format!("comp/table/{}/{}", od.label(), ou.label()),
+        family: "comp",
+        form: "table",
+        on_delete: od.label().into(),
+        on_update: ou.label().into(),
+        prelude: vec![
+            "CREATE TABLE p2 (a INT, b INT, PRIMARY KEY (a, b))".into(),
+            format!("CREATE TABLE c (id INT PRIMARY KEY, x INT, y INT, FOREIGN KEY (x, y) REFERENCES p2 (a, b){})", act_clause(od, ou)),
+        ],
+        schema,
+        ops,
+    }
+}
+
+/// INSERT … SELECT into a child (bulk-transfer row loop and the normal path)
+fn bulk_cfg() -> Cfg {
+    let schema = Schema {
+        tables: vec![
+            TableDecl { name: "P", cols: vec!["id"], defaults: vec![N] },
+            TableDecl { name: "C", cols: vec!["id", "pid"], defaults: vec![N, N] },
+            TableDecl { name: "S", cols: vec!["id", "pid"], defaults: vec![N, N] },
+        ],
+        fks: vec![Fk { child: "C", cols: vec![1], parent: "P", pcols: vec![0], on_delete: Act::NoAction, on_update: Act::NoAction }],
+    };
+    let ops = vec![
+        ins("P", &[&[s(1)]]),
+        ins("P", &[&[s(2)]]),
+        ins("S", &[&[s(1), s(1)]]),
+        ins("S", &[&[s(2), s(2)]]),
+        ins("S", &[&[s(3), s(9)]]),
+        ins("S", &[&[s(4), N]]),
+        del("S", Pred::NoWhere),
+        del("C", Pred::NoWhere),
+        del("P", Pred::Eq(0, 2)),
+        Op::InsertSelect { table: "C", from: "S", column_list: false },
+        Op::InsertSelect { table: "C", from: "S", column_list: true },
+    ];
+    Cfg {
+        name: "bulk/table/NO ACTION/NO ACTION".into(),
+        family: "bulk",
+        form: "table",
+        on_delete: "NO ACTION".into(),
+        on_update: "NO ACTION".into(),
+        prelude: vec![
+            "CREATE TABLE p (id INT PRIMARY KEY)".into(),
+            "CREATE TABLE c (id INT PRIMARY KEY, pid INT, FOREIGN KEY (pid) REFERENCES p (id))".into(),
+            "CREATE TABLE s (id INT NOT NULL, pid INT)".into(),
+        ],
+        schema,
+        ops,
+    }
+}
+
+pub fn configs(thorough: bool) -> Vec<Cfg> {
+    let mut v = vec![];
+    // the delete path reads only ON DELETE, the update path only ON UPDATE: the quick tier takes the
+    // five "diagonal" pairs (every action on both sides once), the thorough tier all 25 pairs
+    for od in Act::ALL {
+        for ou in Act::ALL {
+            // RESTRICT shares its code with NO ACTION and has no keyword in the parser: thorough only
+            if thorough || (od == ou && od != Act::Restrict) {
+                v.push(pc_cfg("table", od, ou, thorough));
+            }
+        }
+    }
+    // column-constraint form (the other parser path)
+    v.push(pc_cfg("column", Act::Cascade, Act::Cascade, thorough));
+    if thorough {
+        v.push(pc_cfg("column", Act::NoAction, Act::NoAction, thorough));
+        v.push(pc_cfg("column", Act::SetNull, Act::SetNull, thorough));
+        v.push(pc_cfg("column", Act::SetDefault, Act::SetDefault, thorough));
+        v.push(pc_cfg("column", Act::Restrict, Act::Restrict, thorough));
+    }
+    for (od, ou) in [(Act::Cascade, Act::Cascade), (Act::SetNull, Act::SetNull), (Act::NoAction, Act::NoAction)] {
+        v.push(self_cfg(od, ou));
+    }
+    v.push(chain_cfg(Act::Cascade));
+    v.push(chain_cfg(Act::NoAction));
+    if thorough {
+        v.push(chain_cfg(Act::SetNull));
+    }
+    for first in [true, false] {
+        v.push(two_cfg(first, Act::NoAction));
+        if thorough {
+            v.push(two_cfg(first, Act::Restrict));
+            v.push(two_cfg(first, Act::SetNull));
+        }
+    }
+    v.push(uniq_cfg(Act::NoAction, Act::NoAction));
+    v.push(uniq_cfg(Act::Cascade, Act::Cascade));
+    if thorough {
+        v.push(uniq_cfg(Act::SetNull, Act::SetNull));
+        v.push(uniq_cfg(Act::SetDefault, Act::SetDefault));
+    }
+    for gu in [Act::Cascade, Act::NoAction] {
+        v.push(pkfk_cfg(gu));
+    }
+    v.push(comp_cfg(Act::Cascade, Act::Cascade));
+    v.push(comp_cfg(Act::SetNull, Act::SetNull));
+    if thorough {
+        v.push(comp_cfg(Act::NoAction, Act::NoAction));
+        v.push(comp_cfg(Act::SetDefault, Act::SetDefault));
+    }
+    v.push(bulk_cfg());
+    v
+}
+
+#[derive(Debug, Clone, PartialEq)]
+pub struct Verdict {
+    pub kind: &'static str,
+    pub what: String,
+    /// the post-state is inconsistent: do not explore from it
+    pub prune: bool,
+}
+
+#[derive(Default)]
+pub struct Counters {
+    pub m: Mutex<BTreeMap<String, u64>>,
+}
+impl Counters {
+    fn add(&self, k: String, n: u64) {
+        *self.m.lock().unwrap().entry(k).or_insert(0) += n;
+    }
+}
+
+/// Judge one transition. Err(_) = the harness could not read the state (machinery).
+pub fn judge(cfg: &Cfg, pre: &Database, op: &Op, post: &Database, out: &Out, cnt: Option<&Counters>) -> Result<Option<Verdict>, String> {
+    let sql = op.sql(&cfg.schema);
+    if let Out::Panic(m) = out {
+        return Ok(Some(Verdict { kind: "panic", what: format!("`{}` panicked: {}", sql, m), prune: true }));
+    }
+    let pre_t = sx::read_schema_tables(pre, &cfg.schema)?;
+    let post_t = sx::read_schema_tables(post, &cfg.schema)?;
+    let exp = model::expect(&cfg.schema, &pre_t, op);
+    let dang = model::dangling(&cfg.schema, &post_t);
+    if let Some(c) = cnt {
+        let shape = op.shape(&cfg.schema);
+        let cls = format!(
+            "{}|{}|{}|{}",
+            shape,
+            out.class(),
+            if exp.must_reject.is_some() { "model:reject" } else { "model:apply" },
+            if exp.action_rows > 0 { "actions" } else { "no-actions" }
+        );
+        c.add(format!("class:{}", cls), 1);
+        if exp.action_rows > 0 && exp.must_reject.is_none() && out.is_ok() {
+            for fk in &cfg.schema.fks {
+                let a = match op {
+                    Op::Delete { .. } => fk.on_delete,
+                    _ => fk.on_update,
+                };
+                if fk.parent == op.table() {
+                    c.add(format!("action_applied:{}:{}", if matches!(op, Op::Delete { .. }) { "delete" } else { "update" }, a.label()), 1);
+                }
+            }
+        }
+        if exp.must_reject.is_some() {
+            c.add(format!("must_reject:{}", if out.is_ok() { "ACCEPTED" } else { "rejected" }), 1);
+        } else if !out.is_ok() {
+            c.add("false_rejection(not a violation)".into(), 1);
+        }
+    }
+    if !dang.is_empty() {
+        let kind = if out.is_ok() { "orphan" } else { "orphan_after_rejected_statement" };
+        return Ok(Some(Verdict {
+            kind,
+            what: format!(
+                "after `{}` ({}) {} — before: {} after: {}",
+                sql,
+                out.brief(),
+                dang[0],
+                model::fmt_tables(&pre_t),
+                model::fmt_tables(&post_t)
+            ),
+            prune: true,
+        }));
+    }
+    if out.is_ok() {
+        if let Some(why) = &exp.must_reject {
+            // consistent state, but not by the declared action (e.g. children removed under NO ACTION)
+            return Ok(Some(Verdict {
+                kind: "action_mismatch",
+                what: format!(
+                    "`{}` was accepted although the declared actions leave {}; before: {} after: {}",
+                    sql,
+                    why,
+                    model::fmt_tables(&pre_t),
+                    model::fmt_tables(&post_t)
+                ),
+                prune: false,
+            }));
+        }
+        if exp.undefined.is_none() && !model::same_tables(&exp.post, &post_t) {
+            let target_only = cfg.schema.names().iter().all(|n| {
+                *n == op.table() || {
+                    let mut a = exp.post.get(*n).cloned().unwrap_or_default();
+                    let mut b = post_t.get(*n).cloned().unwrap_or_default();
+                    a.sort();
+                    b.sort();
+                    a == b
+                }
+            });
+            return Ok(Some(Verdict {
+                kind: if target_only { "target_rows_mismatch" } else { "action_mismatch" },
+                what: format!(
+                    "`{}` ({}) before: {} expected: {} got: {}",
+                    sql,
+                    out.brief(),
+                    model::fmt_tables(&pre_t),
+                    model::fmt_tables(&exp.post),
+                    model::fmt_tables(&post_t)
+                ),
+                prune: false,
+            }));
+        }
+    }
+    Ok(None)
+}
+
+/// Re-execute a history from scratch and judge its last step.
+pub fn rejudge(cfg: &Cfg, hist: &[String]) -> Result<Option<Verdict>, String> {
+    let mut db = sx::fresh(&cfg.prelude)?;
+    let by_sql: HashMap<String, &Op> = cfg.ops.iter().map(|o| (o.sql(&cfg.schema), o)).collect();
+    let (last, init) = hist.split_last().ok_or("empty history")?;
+    for h in init {
+        sx::apply(&mut db, h);
+    }
+    let pre = db.clone();
+    let out = sx::apply(&mut db, last);
+    let op = by_sql.get(last).ok_or_else(|| format!("statement not in the alphabet: {}", last))?;
+    judge(cfg, &pre, op, &db, &out, None)
+}
+
+struct C12Spec<'a> {
+    cfg: &'a Cfg,
+    alphabet: Vec<String>,
+    by_sql: HashMap<String, Op>,
+    cnt: &'a Counters,
+    confirmed: &'a Mutex<HashSet<String>>,
+    col: &'a sx::Collector,
+}
+
+thread_local! {
+    /// history of the node whose alphabet is being applied (only read when tracing)
+    static CUR_HIST: std::cell::RefCell<Vec<String>> = const { std::cell::RefCell::new(Vec::new()) };
+}
+
+fn sig_of(cfg: &Cfg, op: &Op, v: &Verdict) -> Vec<(&'static str, String)> {
+    vec![
+        ("kind", v.kind.to_string()),
+        ("family", cfg.family.to_string()),
+        ("form", cfg.form.to_string()),
+        ("on_delete", cfg.on_delete.clone()),
+        ("on_update", cfg.on_update.clone()),
+        ("shape", op.shape(&cfg.schema)),
+        ("stmt", op.sql(&cfg.schema)),
+    ]
+}
+
+fn case_json(cfg: &Cfg, hist: &[String]) -> Value {
+    let probes: Vec<String> = cfg.schema.names().iter().map(|n| format!("SELECT * FROM {}", n.to_lowercase())).collect();
+    json!({"cfg": cfg.name, "prelude": cfg.prelude, "steps": hist, "probes": probes})
+}
+
+impl<'a> Spec for C12Spec<'a> {
+    type M = ();
+    fn init(&self) -> Vec<Node<()>> {
+        vec![Node { db: sx::fresh(&self.cfg.prelude).expect("prelude checked before the search"), model: (), hist: vec![] }]
+    }
+    fn alphabet(&self, _db: &Database, _m: &(), h: &[String]) -> Vec<String> {
+        if sx::tracing() {
+            CUR_HIST.with(|c| *c.borrow_mut() = h.to_vec());
+        }
+        self.alphabet.clone()
+    }
+    fn apply(&self, db: &mut Database, op: &str) -> Out {
+        if sx::tracing() {
+            let mut steps = CUR_HIST.with(|c| c.borrow().clone());
+            steps.push(op.to_string());
+            sx::trace(&case_json(self.cfg, &steps));
+        }
+        sx::apply(db, op)
+    }
+    fn step(&self, pre: &Database, _m: &(), op_sql: &str, post: &Database, out: &Out, hist: &[String], _rep: &Report) -> Option<()> {
+        let rep = self.col;
+        let op = &self.by_sql[op_sql];
+        match judge(self.cfg, pre, op, post, out, Some(self.cnt)) {
+            Err(e) => {
+                rep.machinery_error(format!("{}: {} (history {:?})", self.cfg.name, e, hist));
+                None
+            }
+            Ok(None) => Some(()),
+            Ok(Some(v)) => {
+                let sig = sig_of(self.cfg, op, &v);
+                let key = sig.iter().map(|(k, x)| format!("{}={}", k, x)).collect::<Vec<_>>().join(";");
+                let first = self.confirmed.lock().unwrap().insert(key.clone());
+                if first {
+                    // re-execute from scratch before reporting (DESIGN R3): the same kind of violation
+                    // must show again twice. The engine iterates over hash maps with random seeds
+                    // (e.g. the order in which child tables are visited), so the text of a partial
+                    // effect may differ between runs; a violation that never shows again is a
+                    // machinery error, not a verdict.
+                    let mut again = 0;
+                    let mut last = None;
+                    for _ in 0..6 {
+                        let r = rejudge(self.cfg, hist);
+                        if matches!(&r, Ok(Some(x)) if x.kind == v.kind) {
+                            again += 1;
+                            if again == 2 {
+                                break;
+                            }
+                        }
+                        last = Some(r);
+                    }
+                    if again < 2 {
+                        self.confirmed.lock().unwrap().remove(&key);
+                        rep.machinery_error(format!(
+                            "{}: violation not reproduced from scratch: first {:?}, last re-execution {:?} (history {:?})",
+                            self.cfg.name, v, last, hist
+                        ));
+                        return None;
+                    }
+                }
+                rep.violation(&sig, v.what.clone(), case_json(self.cfg, hist));
+                if v.prune {
+                    None
+                } else {
+                    Some(())
+                }
+            }
+        }
+    }
+}
+
+fn depth_of(thorough: bool, cfg: &Cfg) -> usize {
+    // history bound: the parent/child configurations have ≈ 27 statements, the special families
+    // (chains, two children, self-reference, composite keys …) 11–20 and need one step more for
+    // their shortest interesting histories (parent, child, grandchild, then the statement)
+    match (thorough, cfg.family) {
+        (true, "pc") => 5,
+        (true, _) => 6,
+        (false, "pc") => 3,
+        (false, _) => 4,
+    }
+}
+
+const GUARD_DEPTH: usize = 2;
+
+/// Explore one configuration (worker subprocess) and print the RESULT document.
+pub fn worker(tier: &str, cfg_name: &str) -> i32 {
+    let thorough = tier == "thorough";
+    let cfgs = configs(thorough);
+    let Some(i) = cfgs.iter().position(|c| c.name == cfg_name) else {
+        eprintln!("unknown configuration {}", cfg_name);
+        return 2;
+    };
+    let cfg = &cfgs[i];
+    vibesql_types::verif::reset();
+    let col = sx::Collector::default();
+    let cnt = Counters::default();
+    let confirmed = Mutex::new(HashSet::new());
+    let dummy = Report::new("C12", tier, "model_checking");
+    let mut stats = json!({});
+    // prelude must be accepted and alphabet entries must be distinct
+    let alphabet: Vec<String> = cfg.ops.iter().map(|o| o.sql(&cfg.schema)).collect();
+    let by_sql: HashMap<String, Op> = cfg.ops.iter().map(|o| (o.sql(&cfg.schema), o.clone())).collect();
+    if let Err(e) = sx::fresh(&cfg.prelude) {
+        col.machinery_error(e);
+    } else if by_sql.len() != alphabet.len() {
+        col.machinery_error("duplicate statements in the alphabet".into());
+    } else {
+        let spec = C12Spec { cfg, alphabet, by_sql, cnt: &cnt, confirmed: &confirmed, col: &col };
+        let budget = if thorough { 1500.0 } else { 120.0 };
+        // stateless guard pass (no merging): every configuration in the thorough tier, the first
+        // configuration of each family in the quick tier
+        let first_of_family = cfgs.iter().position(|c| c.family == cfg.family) == Some(i);
+        let g = if thorough || first_of_family {
+            histmc::bfs(&spec, GUARD_DEPTH, false, &dummy, &Caps { max_states: 2_000_000, max_secs: budget })
+        } else {
+            histmc::Stats { depth_completed: GUARD_DEPTH, ..Default::default() }
+        };
+        let depth = depth_of(thorough, cfg);
+        let st = histmc::bfs(&spec, depth, true, &dummy, &Caps { max_states: if thorough { 1_500_000 } else { 300_000 }, max_secs: budget });
+        stats = json!({
+            "states": st.states, "transitions": st.transitions, "ok": st.ok_transitions, "err": st.err_transitions, "panic": st.panic_transitions,
+            "depth_bound": depth, "depth_completed": st.depth_completed, "capped": st.capped || st.depth_completed < depth || g.capped,
+            "guard_states": g.states, "guard_transitions": g.transitions, "guard_depth_completed": g.depth_completed,
+            "alphabet": cfg.ops.len(), "sample": st.samples.last().cloned().unwrap_or_default(),
+        });
+    }
+    let mut res = col.to_json();
+    res["stats"] = stats;
+    res["counters"] = json!(cnt.m.lock().unwrap().clone());
+    let reach: BTreeMap<String, u64> = vibesql_types::verif::snapshot().into_iter().filter(|(_, v)| *v > 0).map(|(k, v)| (k.to_string(), v)).collect();
+    res["reach"] = json!(reach);
+    sx::print_result(&res);
+    0
+}
+
+pub fn run(tier: &str) -> i32 {
+    let mut rep = Report::new("C12", tier, "model_checking");
+    let thorough = tier == "thorough";
+    let cfgs = configs(thorough);
+    let units: Vec<String> = cfgs.iter().map(|c| c.name.clone()).collect();
+    let outcomes = sx::run_workers("C12", tier, &units, if thorough { 4 } else { 8 });
+    let mut counters: BTreeMap<String, u64> = BTreeMap::new();
+    let mut reach: BTreeMap<String, u64> = BTreeMap::new();
+    let mut per_cfg = serde_json::Map::new();
+    let mut capped = vec![];
+    let mut samples: Vec<Vec<String>> = vec![];
+    let (mut states, mut transitions, mut ok, mut err, mut panics, mut gstates, mut gtrans) = (0u64, 0u64, 0u64, 0u64, 0u64, 0u64, 0u64);
+    let mut aborted_units = vec![];
+    for o in &outcomes {
+        let cfg = cfgs.iter().find(|c| c.name == o.unit).expect("unit is a configuration");
+        if let Some((status, inflight)) = &o.died {
+            match (&o.result, inflight) {
+                (None, Some(case)) => {
+                    // the engine took the process down on this history (twice): a statement that
+                    // neither completes nor is rejected
+                    let steps: Vec<String> = case["steps"].as_array().map(|a| a.iter().filter_map(|x| x.as_str().map(String::from)).collect()).unwrap_or_default();
+                    let last = steps.last().cloned().unwrap_or_default();
+                    let shape = cfg.ops.iter().find(|op| op.sql(&cfg.schema) == last).map(|op| op.shape(&cfg.schema)).unwrap_or_default();
+                    rep.violation(
+                        &[
+                            ("kind", "process_abort".to_string()),
+                            ("family", cfg.family.to_string()),
+                            ("form", cfg.form.to_string()),
+                            ("on_delete", cfg.on_delete.clone()),
+                            ("on_update", cfg.on_update.clone()),
+                            ("shape", shape),
+                            ("stmt", last.clone()),
+                        ],
+                        format!("the engine aborted the process (worker status {}) while executing `{}` after {:?}", status, last, &steps[..steps.len().saturating_sub(1)]),
+                        case.clone(),
+                    );
+                    aborted_units.push(o.unit.clone());
+                }
+                (None, None) => rep.machinery_error(format!("{}: worker died ({}) and the in-flight case could not be determined", o.unit, status)),
+                (Some(_), _) => rep.machinery_error(format!("{}: worker died once ({}), the single-threaded re-run completed", o.unit, status)),
+            }
+        }
+        let Some(res) = &o.result else { continue };
+        sx::merge_into(&rep, &o.unit, res);
+        let st = &res["stats"];
+        let u = |k: &str| st[k].as_u64().unwrap_or(0);
+        states += u("states");
+        transitions += u("transitions");
+        ok += u("ok");
+        err += u("err");
+        panics += u("panic");
+        gstates += u("guard_states");
+        gtrans += u("guard_transitions");
+        if st["capped"].as_bool().unwrap_or(true) {
+            capped.push(json!({"cfg": o.unit, "depth_completed": st["depth_completed"], "guard_depth_completed": st["guard_depth_completed"]}));
+        }
+        per_cfg.insert(
+            o.unit.clone(),
+            json!({"states": u("states"), "transitions": u("transitions"), "depth_bound": st["depth_bound"], "depth_completed": st["depth_completed"], "ok": u("ok"), "err": u("err"), "alphabet": st["alphabet"]}),
+        );
+        if samples.len() < 6 {
+            if let Some(sm) = st["sample"].as_array() {
+                if !sm.is_empty() {
+                    let mut x = vec![format!("[{}]", o.unit)];
+                    x.extend(sm.iter().filter_map(|v| v.as_str().map(String::from)));
+                    samples.push(x);
+                }
+            }
+        }
+        for (k, v) in res["counters"].as_object().cloned().unwrap_or_default() {
+            *counters.entry(k).or_insert(0) += v.as_u64().unwrap_or(0);
+        }
+        for (k, v) in res["reach"].as_object().cloned().unwrap_or_default() {
+            *reach.entry(k).or_insert(0) += v.as_u64().unwrap_or(0);
+        }
+    }
+    if samples.is_empty() {
+        samples.push(vec!["<no configuration completed>".to_string()]);
+    }
+    rep.set("states", json!(states));
+    rep.set("transitions", json!(transitions));
+    rep.set("transition_outcomes", json!({"ok": ok, "err": err, "panic": panics}));
+    rep.set("stateless_guard_states", json!(gstates));
+    rep.set("stateless_guard_transitions", json!(gtrans));
+    rep.set("depth_bound", json!(if thorough { "5 (parent/child configurations), 6 (other families)" } else { "3 (parent/child configurations), 4 (other families)" }));
+    rep.set("stateless_guard_depth", json!(GUARD_DEPTH));
+    rep.set("configurations", json!(cfgs.len()));
+    rep.set("per_configuration", Value::Object(per_cfg));
+    rep.set("capped_configurations", json!(capped));
+    rep.set("aborted_configurations", json!(aborted_units));
+    rep.set("exhaustive", json!(capped.is_empty() && aborted_units.is_empty()));
+    rep.set("samples", json!(samples));
+    let classes = counters.keys().filter(|k| k.starts_with("class:")).count();
+    rep.set("distinct_outcome_classes", json!(classes));
+    rep.set("counters", json!(counters));
+    let expected_actions = [
+        "action_applied:delete:CASCADE",
+        "action_applied:delete:SET NULL",
+        "action_applied:delete:SET DEFAULT",
+        "action_applied:update:CASCADE",
+        "action_applied:update:SET NULL",
+        "action_applied:update:SET DEFAULT",
+        "must_reject:rejected",
+    ];
+    let vac: Vec<&str> = expected_actions.iter().filter(|k| counters.get(**k).copied().unwrap_or(0) == 0).copied().collect();
+    rep.set("vacuous_mechanisms", json!(vac));
+    rep.set(
+        "rule",
+        json!("per configuration (schema family × declaration form × ON DELETE/ON UPDATE pair), each in its own worker process: BFS over all statement histories of the alphabet on the real Database, states merged on the canonical whole-value fingerprint, plus a stateless pass to depth 2; in every transition (1) every non-NULL foreign key of the declared constraints has a parent row (recomputed from scans), (2) an accepted statement's effect on all tables equals the reference model's (referential actions, end-of-statement semantics), (3) a statement the model must reject (it leaves a dangling key) is not accepted; states with dangling keys are reported and not expanded; a history on which the engine aborts the process is reported"),
+    );
+    rep.set("reach", json!(reach));
+    rep.assume("equal canonical Debug fingerprints imply equal futures (vcore::fp)");
+    rep.assume("the reference model is lenient: RESTRICT is treated like NO ACTION (end-of-statement check), rows of one batch may reference each other, a rejection by the engine is always acceptable");
+    println!(
+        "C12 {}: {} configurations, {} states, {} transitions (ok {}, err {}), {} outcome classes, capped: {}, aborted: {}",
+        tier,
+        cfgs.len(),
+        states,
+        transitions,
+        ok,
+        err,
+        classes,
+        capped.len(),
+        aborted_units.len()
+    );
+    rep.finish()
+}
+
+pub fn replay(case: &Value) -> i32 {
+    let name = case["cfg"].as_str().unwrap_or("");
+    let cfgs = configs(true);
+    let Some(cfg) = cfgs.iter().find(|c| c.name == name).or_else(|| None) else {
+        eprintln!("unknown configuration {}", name);
+        return 2;
+    };
+    // the quick tier uses a smaller alphabet of the same configuration; statements are looked up in the larger one
+    let hist: Vec<String> = case["steps"].as_array().map(|a| a.iter().filter_map(|x| x.as_str().map(String::from)).collect()).unwrap_or_default();
+    let mut db = match sx::fresh(&cfg.prelude) {
+        Ok(d) => d,
+        Err(e) => {
+            eprintln!("{}", e);
+            return 2;
+        }
+    };
+    for p in &cfg.prelude {
+        println!("{}", p);
+    }
+    for h in &hist {
+        let o = sx::apply(&mut db, h);
+        println!("{}\n   => {}", h, o.brief());
+    }
+    match sx::read_schema_tables(&db, &cfg.schema) {
+        Ok(t) => println!("final tables: {}", model::fmt_tables(&t)),
+        Err(e) => println!("final tables unreadable: {}", e),
+    }
+    match rejudge(cfg, &hist) {
+        Ok(Some(v)) => {
+            println!("VERDICT violation kind={} {}", v.kind, v.what);
+            1
+        }
+        Ok(None) => {
+            println!("VERDICT no violation reproduced");
+            0
+        }
+        Err(e) => {
+            eprintln!("{}", e);
+            2
+        }
+    }
+}
+
+#[cfg(test)]
+mod tests {
+    //! Witnesses of the findings that were repaired in /repo (DESIGN R7): each must be quiet now.
+    use super::*;
+
+    fn quiet(cfg_name: &str, steps: &[&str]) {
+        let cfgs = configs(true);
+        let cfg = cfgs.iter().find(|c| c.name == cfg_name).expect("configuration");
+        let hist: Vec<String> = steps.iter().map(|s| s.to_string()).collect();
+        let v = rejudge(cfg, &hist).expect("harness");
+        assert!(v.is_none(), "{:?}", v);
+    }
+
+    #[test]
+    fn column_level_references_is_enforced() {
+        quiet("pc/column/NO ACTION/NO ACTION", &["INSERT INTO c VALUES (4, 9)"]);
+    }
+
+    #[test]
+    fn unique_non_key_parent_column() {
+        quiet("uniq/table/NO ACTION/NO ACTION", &["INSERT INTO p VALUES (1, 10)", "INSERT INTO c VALUES (1, 10)", "DELETE FROM p WHERE id = 1"]);
+        quiet("uniq/table/CASCADE/CASCADE", &["INSERT INTO p VALUES (1, 10)", "INSERT INTO c VALUES (1, 10)", "UPDATE p SET v = 11 WHERE id = 1"]);
+    }
+
+    #[test]
+    fn unchanged_key_triggers_no_action() {
+        quiet("pc/table/SET NULL/SET NULL", &["INSERT INTO p VALUES (1, 10)", "INSERT INTO c VALUES (1, 1)", "UPDATE p SET id = 1 WHERE id = 1"]);
+    }
+
+    #[test]
+    fn set_default_needs_a_parent() {
+        quiet("pc/table/SET DEFAULT/SET DEFAULT", &["INSERT INTO p VALUES (1, 10)", "INSERT INTO c VALUES (1, 1)", "DELETE FROM p WHERE id = 1"]);
+    }
+
+    #[test]
+    fn self_reference_key_shift() {
+        quiet("self/alter/CASCADE/CASCADE", &["INSERT INTO e VALUES (1, NULL)", "INSERT INTO e VALUES (2, 1)", "UPDATE e SET id = id + 10"]);
+    }
+
+    #[test]
+    fn cascaded_key_is_followed() {
+        quiet(
+            "pkfk/table/g:CASCADE",
+            &["INSERT INTO p VALUES (1), (2)", "INSERT INTO c VALUES (1, 0)", "INSERT INTO g VALUES (1, 1)", "UPDATE p SET id = 5 WHERE id = 1"],
+        );
+    }
 }
